@@ -14,6 +14,7 @@ pub mod c06;
 pub mod c07;
 pub mod c08;
 pub mod cmdtable;
+pub mod c13;
 pub mod c14;
 pub mod c15;
 pub mod c16;
@@ -35,6 +36,7 @@ pub fn parent_main(prop: &str, tier: &str) -> i32 {
         "C15" => c15::parent(tier),
         "C05" => c05::parent(tier),
         "C17" => c17::parent(tier),
+        "C13" => c13::parent(tier),
         "C08" => c08::parent(tier),
         "C18" => c18::parent(tier),
         "C14" => c14::parent(tier),
@@ -91,6 +93,10 @@ pub fn worker_main(prop: &str, tier: &str, _slot: usize) {
         }
         "C08" => {
             let mut h = c08::handle_factory();
+            pool::worker_loop(|t, io| h(tier, t, io))
+        }
+        "C13" => {
+            let mut h = c13::handle_factory();
             pool::worker_loop(|t, io| h(tier, t, io))
         }
         "C17" => {
